@@ -12,7 +12,7 @@ typedef unsigned long ul;
 static void dump_graph(const Graph& h, ul* ond, ul* oni, ul* onidx, ul* odp, ul* oii)
 {
   *ond = h.get_num_nodes_domain(); *oni = h.get_num_nodes_image(); *onidx = h.get_num_indices();
-  for(Index i = 0; i <= *ond; ++i) odp[i] = h.get_domain_ptr()[i];
+  if(h.get_domain_ptr() != nullptr) for(Index i = 0; i <= *ond; ++i) odp[i] = h.get_domain_ptr()[i];
   for(Index i = 0; i < *onidx; ++i) oii[i] = h.get_image_idx()[i];
 }
 
